@@ -78,6 +78,10 @@ SEED = {
  "seedpatch-C06-c": ("C06", "/verif/seeded/C06-c/patch.diff"),
  "seedpatch-C03-c": ("C03", "/verif/seeded/C03-c/patch.diff"),
  "seedpatch-C01-c": ("C01", "/verif/seeded/C01-c/patch.diff"),
+ "seedpatch-C04-d": ("C04", "/verif/seeded/C04-d/patch.diff"),
+ "seedpatch-C02-d-on-C02": ("C02", "/verif/seeded/C02-d/patch.diff"),
+ "seedpatch-C02-d-on-C03": ("C03", "/verif/seeded/C02-d/patch.diff"),
+ "seedpatch-C03-d": ("C03", "/verif/seeded/C03-d/patch.diff"),
 }
 ENV = dict(os.environ, GOFLAGS="-mod=mod", GOPROXY="off", GOSUMDB="off", GOTOOLCHAIN="local")
 BASE = "go test -vet=off -count=1 ./bint/... ./eth/... ./jrpc2/... ./shovel/config/... ./shovel/glf/... ./wctx/... ./wos/... ./wslog/..."
